@@ -125,14 +125,15 @@ def generate(seed, tier):
             m = {'name': name, 'sig': rnd.randrange(NUMPY_SIG), 'doc': rnd.randrange(NUMPY_DOC),
                  'errors': rnd.choice(['shared', 'shared', 'own', None] if shared_used else ['own', None]),
                  'own': rnd.sample(['E1', 'E2', 'E3', 'E4'], rnd.randint(0, 2)),
-                 'prefix': rnd.choice([None, None, 'P%d_' % i, '']), 'tags': rnd.choice([None, ['t1'], ['t1', 't2']]),
+                 # prefixes incl. ones that coincide with the beginning of generated component names (MethodNameParameters, Item, ...)
+                 'prefix': rnd.choice([None, None, 'P%d_' % i, '', 'M', 'Get', 'Item', 'M%d' % i]), 'tags': rnd.choice([None, ['t1'], ['t1', 't2']]),
                  'summary': rnd.choice([None, 'S']), 'description': rnd.choice([None, 'D']), 'deprecated': rnd.choice([None, True]),
                  'endpoint': endpoint}
             if kind != 'rpc' and rnd.random() < 0.15:
                 m['sig'], m['doc'] = NUMPY_SIG, NUMPY_DOC
             ms.append(m)
         cases.append({'kind': kind, 'methods': ms, 'shared': rnd.sample(['E1', 'E2', 'E3'], rnd.randint(1, 2)),
-                      'stack': rnd.choice(['pyd', 'pyd+doc', 'doc+pyd']), 'global_prefix': rnd.choice(['', '', 'G_']),
+                      'stack': rnd.choice(['pyd', 'pyd+doc', 'doc+pyd']), 'global_prefix': rnd.choice(['', '', 'G_', 'M', 'Get']),
                       'gens': rnd.choice([1, 2, 3]), 'view': rnd.random() < 0.2})
     return cases
 
